@@ -69,6 +69,8 @@ pub struct Stats {
     pub samples: Vec<Vec<String>>,
     pub capped: bool,
     pub per_depth: Vec<u64>,
+    /// schx harnesses: highest preemption bound explored completely (-1: none).
+    pub bound_completed: Option<i64>,
 }
 
 pub struct ExecResult {
